@@ -521,4 +521,136 @@ theorem en_casOk (s : St) (hi : CInv s) (hph : s.ph = 1) (k off : Nat) (hk : k <
     simp [ht, hps, upd_same]
     omega
 
+/-- **A worker inside `do_work` can always move**: it enters the chunk it popped, makes the next
+    call, returns from the call it is in, stores / drops the exception it is unwinding with, or
+    makes the next step of a `pop_*` (load, compare-exchange that succeeds, compare-exchange that
+    fails because another worker changed the word, `nullopt`). -/
+theorem en_worker (s : St) (hi : CInv s) (hph : s.ph = 1) (k off : Nat) (hk : k < s.w)
+    (hPk : PW (s.p.pc k) (s.ex k) (s.lp k))
+    (hoff : Bulk.offOf (s.p.pc k) = some off) (ho : s.p.outcome = none) :
+    ∃ e, evActor e = some k ∧ isStutter e = false ∧ En s e := by
+  have hw : s.p.w = s.w := hi.pw
+  have hrem := (hi.pinv.outn ho).1
+  have hpo : popOff (s.p.pc k) = some off := by rw [popOff_eq_offOf]; exact hoff
+  have popPath : popReady (s.lp k) = true → ∃ e, evActor e = some k ∧ isStutter e = false ∧ En s e := by
+    intro hr
+    cases hex : s.ex k with
+    | none => exact ⟨_, rfl, rfl, en_load s hi hph k off hk hoff hr hex⟩
+    | some x =>
+      obtain ⟨_, off', ho', hpt⟩ := hPk.1 x hex
+      have : off' = off := by rw [hpo] at ho'; injection ho' with h; exact h.symm
+      subst this
+      by_cases hx : x = word (s.p.qs ((k + off') % s.w))
+      · subst hx
+        obtain ⟨df, dl, hen⟩ := en_casOk s hi hph k off' hk hoff hr hex hpt
+        exact ⟨_, rfl, rfl, hen⟩
+      · exact ⟨_, rfl, rfl, en_casFail s hi hph k off' hk hoff hr x hex hx hpt⟩
+  cases hlp : s.lp k with
+  | out => exact popPath (by rw [hlp]; rfl)
+  | got j =>
+    obtain ⟨off', hpc⟩ := hPk.2 j hlp
+    have hj := hi.gotB k j hlp
+    have hub := (C11_chunk_ranges s.S s.w s.n s.c k j hi.safe hk hj).2
+    have hbc := Bulk.en_chunk s.p k off' j (by omega) hpc
+    refine ⟨.chunk k j, rfl, rfl, ?_⟩
+    unfold En
+    simp only [step]; rw [if_pos ⟨hph, hk, hlp, hub⟩, hbc]
+    exact ⟨_, rfl⟩
+  | «at» cur ie =>
+    by_cases hlt : cur < ie
+    · refine ⟨.call k cur s.v, rfl, rfl, ?_⟩
+      unfold En
+      simp only [step]; rw [if_pos ⟨hph, hk⟩, hlp]; dsimp only; rw [if_pos ⟨hlt, rfl, hi.tsv⟩]
+      exact ⟨_, rfl⟩
+    · exact popPath (by rw [hlp]; simp only [popReady, decide_eq_true_eq]; omega)
+  | incall cur ie =>
+    refine ⟨.ret k, rfl, rfl, ?_⟩
+    unfold En
+    simp only [step]; rw [if_pos ⟨hph, hk⟩, hlp]
+    exact ⟨_, rfl⟩
+  | threw i =>
+    have hwk := isWork_of_lp s hi k (by rw [hlp]; simp)
+    cases hpc : s.p.pc k with
+    | work off' j =>
+      cases hx : s.p.excThrown with
+      | false =>
+        obtain ⟨p', hp'⟩ := Bulk.en_exc s.p k off' j (by omega) hpc hx
+        refine ⟨.exc k, rfl, rfl, ?_⟩
+        unfold En
+        simp only [step]; rw [if_pos ⟨hph, hk⟩, hlp]; dsimp only; rw [hp']
+        exact ⟨_, rfl⟩
+      | true =>
+        obtain ⟨p', hp'⟩ := Bulk.en_dec_work s.p k off' j (by omega) hrem hpc hx
+        refine ⟨.dec k (decide (s.p.remaining = 1)), rfl, rfl, ?_⟩
+        unfold En
+        simp only [step]; rw [if_pos ⟨hph, hk⟩, hlp]; dsimp only; rw [if_pos hwk, hp']
+        exact ⟨_, rfl⟩
+    | _ => rw [hpc] at hwk; simp [isWork] at hwk
+
+/-- a worker that left `do_work` can decrement the join counter -/
+theorem en_fin (s : St) (hi : CInv s) (hph : s.ph = 1) (k : Nat) (t : Bool) (hk : k < s.w)
+    (hpc : s.p.pc k = .fin t) (ho : s.p.outcome = none) :
+    ∃ e, evActor e = some k ∧ isStutter e = false ∧ En s e := by
+  have hw : s.p.w = s.w := hi.pw
+  have hrem := (hi.pinv.outn ho).1
+  have hlp := hi.lpOut k (by rw [hpc]; rfl)
+  obtain ⟨p', hp'⟩ := Bulk.en_dec_fin s.p k t (by omega) hrem hpc
+  refine ⟨.dec k (decide (s.p.remaining = 1)), rfl, rfl, ?_⟩
+  unfold En
+  simp only [step]; rw [if_pos ⟨hph, hk⟩, hlp]; dsimp only; rw [if_pos (by rw [hpc]; rfl), hp']
+  exact ⟨_, rfl⟩
+
+/-- **No stuck state in the running phase, and who moves.**  While the receiver has not been
+    completed: (a) the outcome is decided and the completion is enabled, or (b) the spawner loop
+    can handle its next worker, or (c) the spawner loop is finished and the local worker can
+    start, or (d) some worker `k < w` that has not yet decremented the join counter has an
+    enabled non-stutter event of its own. -/
+theorem running_progress (s : St) (hi : CInv s) (hph : s.ph = 1)
+    (hP : ∀ u, PW (s.p.pc u) (s.ex u) (s.lp u)) (hsp : Bulk.SpInv s.p) (hd : s.done = []) :
+    (∃ err tok, s.p.outcome = some err ∧ En s (.sig err tok)) ∨
+    (Bulk.cur s.p < s.w ∧ (En s (.spawn (Bulk.cur s.p)) ∨ En s (.skip (Bulk.cur s.p)))) ∨
+    (s.w ≤ Bulk.cur s.p ∧ En s (.task s.p.L)) ∨
+    (∃ k e, k < s.w ∧ s.p.pc k ≠ .decd ∧ evActor e = some k ∧ isStutter e = false ∧ En s e) := by
+  have hw : s.p.w = s.w := hi.pw
+  have hs0 : s.p.signals = 0 := by rw [← hi.doneLen, hd]; rfl
+  cases ho : s.p.outcome with
+  | some err =>
+    refine Or.inl ?_
+    obtain ⟨p', hp'⟩ := Bulk.en_sig s.p err ho hs0
+    cases err with
+    | false =>
+      refine ⟨false, s.v, rfl, ?_⟩
+      unfold En
+      simp only [step]; rw [if_pos hph, if_pos (by simpa using hi.tsv), hp']
+      exact ⟨_, rfl⟩
+    | true =>
+      have hx : s.p.excThrown = true := ((hi.pinv.outc true ho).2).symm
+      cases hexc : s.exception with
+      | none => exact absurd hexc (hi.excSome hx)
+      | some tok =>
+        refine ⟨true, tok, rfl, ?_⟩
+        unfold En
+        simp only [step]; rw [if_pos hph, if_pos (by simpa using hexc), hp']
+        exact ⟨_, rfl⟩
+  | none =>
+    refine Or.inr ?_
+    rcases Bulk.actor s.p hi.pinv hsp ho with ⟨hc, hidle⟩ | ⟨hc, hidle⟩ | ⟨k, hk, hkL, hpc⟩ |
+        ⟨k, off, hk, hoff⟩ | ⟨k, t, hk, hpc⟩
+    · refine Or.inl ⟨by omega, ?_⟩
+      obtain ⟨e, p', he, hp'⟩ := Bulk.en_spawn_skip s.p hc hidle
+      rcases he with he | he <;> subst he
+      · exact Or.inl (by unfold En; simp only [step]; rw [if_pos hph, hp']; exact ⟨_, rfl⟩)
+      · exact Or.inr (by unfold En; simp only [step]; rw [if_pos hph, hp']; exact ⟨_, rfl⟩)
+    · refine Or.inr (Or.inl ⟨by omega, ?_⟩)
+      obtain ⟨p', hp'⟩ := Bulk.en_taskL s.p hi.pinv hc hidle
+      unfold En; simp only [step]; rw [if_pos hph, hp']; exact ⟨_, rfl⟩
+    · refine Or.inr (Or.inr ⟨k, .task k, by omega, by rw [hpc]; simp, rfl, rfl, ?_⟩)
+      obtain ⟨p', hp'⟩ := Bulk.en_task s.p k hk hkL hpc
+      unfold En; simp only [step]; rw [if_pos hph, hp']; exact ⟨_, rfl⟩
+    · obtain ⟨e, h1, h2, h3⟩ := en_worker s hi hph k off (by omega) (hP k) hoff ho
+      refine Or.inr (Or.inr ⟨k, e, by omega, ?_, h1, h2, h3⟩)
+      intro hdd; rw [hdd] at hoff; simp [Bulk.offOf] at hoff
+    · obtain ⟨e, h1, h2, h3⟩ := en_fin s hi hph k t (by omega) hpc ho
+      exact Or.inr (Or.inr ⟨k, e, by omega, by rw [hpc]; simp, h1, h2, h3⟩)
+
 end PikaVerif.BulkC
